@@ -14,7 +14,7 @@ import time
 import traceback
 
 from . import shrink as shrinker
-from .kernel import Deadlock, HarnessError, Sim, StepCap, make_rng
+from .kernel import Deadlock, HarnessError, Sim, SkipRun, StepCap, make_rng
 
 VERIF = os.path.dirname(os.path.dirname(os.path.abspath(__file__)))
 EVIDENCE_DIR = os.path.join(VERIF, "evidence")
@@ -191,6 +191,9 @@ def run_plan(mod, plan: dict, sim: Sim) -> dict:
             out["violations"], out["key"] = res
         else:
             out["violations"] = res or []
+    except SkipRun as e:
+        sim.count("runs_skipped")
+        sim.event("skipped", str(e)[:80])
     except HarnessError as e:
         out["harness"] = f"HarnessError: {e}"
     except (StepCap, Deadlock) as e:
